@@ -141,8 +141,8 @@ impl Report {
         let wall = self.start.elapsed().as_secs_f64();
         let inner = self.inner.into_inner().unwrap();
 
-        // promised classes must have been reached
-        for k in &inner.required {
+        // promised classes must have been reached (unless the run was cut short by violations)
+        for k in inner.required.iter().filter(|_| inner.violations.is_empty()) {
             if inner.counters.get(k).copied().unwrap_or(0) == 0 {
                 crate::util::machinery_error(&format!(
                     "{}: promised class '{}' was reached 0 times - exploration would be vacuous",
